@@ -514,6 +514,68 @@ pub fn run(tier: &str, seed: u64, out: &str) {
         );
     }
 
+    // ---- (f) sessions: every sequence of up to four position commands over a small family of
+    // related move lists (the prefixes of a main line and of a variation that leaves it after
+    // two plies): extension, take-back, variation, take-back beyond the branch point, repeats
+    if !rep.saturated() {
+        let families: Vec<(&str, [&str; 4], [&str; 2])> = if thorough {
+            vec![
+                ("startpos", ["e2e4", "e7e5", "g1f3", "b8c6"], ["f1c4", "g8f6"]),
+                ("r3k2r/p1ppqpb1/bn2pnp1/3PN3/1p2P3/2N2Q1p/PPPBBPPP/R3K2R w KQkq - 0 1", ["e1g1", "e8c8", "d5e6", "d7e6"], ["a2a4", "b4a3"]),
+            ]
+        } else {
+            vec![("startpos", ["e2e4", "e7e5", "g1f3", "b8c6"], ["f1c4", "g8f6"])]
+        };
+        let max_len = if thorough { 5 } else { 4 };
+        let mut n_seq = 0usize;
+        for (start, main, var) in &families {
+            let p0 = start_pos(start);
+            let mainm: Vec<Mv> = main.iter().map(|t| Mv::parse(t).unwrap()).collect();
+            let varm: Vec<Mv> = var.iter().map(|t| Mv::parse(t).unwrap()).collect();
+            let mut lists: Vec<Vec<Mv>> = (0..=4).map(|k| mainm[..k].to_vec()).collect();
+            lists.push(vec![mainm[0], mainm[1], varm[0]]);
+            lists.push(vec![mainm[0], mainm[1], varm[0], varm[1]]);
+            let pool: Vec<(String, Pos)> = lists
+                .iter()
+                .map(|l| {
+                    let mut p = p0.clone();
+                    for m in l {
+                        if !p.legal_moves().contains(m) {
+                            eprintln!("MACHINERY ERROR: C04 session family {:?}: {} is not legal", start, m.uci());
+                            std::process::exit(2);
+                        }
+                        p = p.make(*m);
+                    }
+                    (command(start, l), p)
+                })
+                .collect();
+            let mut seqs: Vec<Vec<usize>> = Vec::new();
+            let mut layer: Vec<Vec<usize>> = vec![vec![]];
+            for _ in 0..max_len {
+                let mut next = Vec::new();
+                for s in &layer {
+                    for a in 0..pool.len() {
+                        let mut t = s.clone();
+                        t.push(a);
+                        next.push(t);
+                    }
+                }
+                seqs.extend(next.iter().cloned());
+                layer = next;
+            }
+            n_seq += seqs.len();
+            par_map_init(&seqs, Engine::new, |e, sq| {
+                *e = Engine::new();
+                let cmds: Vec<&str> = sq.iter().map(|i| pool[*i].0.as_str()).collect();
+                check(e, &rep, &cmds, &pool[*sq.last().unwrap()].1);
+                commands.fetch_add(cmds.len() as u64, Ordering::Relaxed);
+            });
+        }
+        eprintln!("[C04] sessions: {} command sequences of length <= {} ({:.1}s)", n_seq, max_len, rep.elapsed());
+        transitions_total += n_seq as u64;
+        cov_parts.push(J::obj().set("part", "f: every sequence of position commands up to the listed length over 7 related move lists per family (prefixes of a 4-ply main line and of a variation leaving it after 2 plies), each sequence on a fresh engine: extensions, take-backs, variations, take-backs beyond the branch point, repeats").set("families", families.len()).set("max_commands", max_len).set("sequences", n_seq));
+    }
+
     // ---- (e) every move string by every kind of man
     if !rep.saturated() {
         let contents: Vec<Option<Kind>> = if thorough { vec![None, Some(Kind::R), Some(Kind::Q), Some(Kind::B), Some(Kind::N), Some(Kind::P)] } else { vec![None, Some(Kind::R)] };
